@@ -6,6 +6,7 @@
    AST (one constructor per Rust variant, payloads reduced to what linter.rs
    looks at; locations are position ids [N], types are opaque tags [tytag]):
      expr      <- common.rs  enum Expression        (17 variants, same order)
+     unop      <- common.rs  enum UnaryOp           (2 variants, same order)
      member    <- common.rs  struct MemberExpression (only .expression)
      refstep   <- common.rs  enum ReferenceStep     (5 variants, same order)
      reference <- common.rs  struct Reference       (only .steps)
@@ -18,7 +19,7 @@
                   [body : Poisonable<FunctionBody>] is [option fbody], None = Err)
    A literal's [value_type : Option<Poisonable<ValueType>>] is [option tytag]:
    [Some t] = Some(Ok(t)); [None] = None or Some(Err(_)) - linter.rs treats these
-   two alike (catch-all arms at linter.rs:304-308 and 325-329).
+   two alike (catch-all arms at linter.rs:345-349 and 366-370).
 
    Linter state and output:
      lstate    <- linter.rs  struct Linter: is_naked_branch (NakedBranch =
@@ -26,9 +27,14 @@
                   location_of_condition, location_of_block).  The field [lints] is
                   modelled by the returned event list (writer style): every
                   function returns the events it appends, in order.
-     lintev    <- EvLiteral: the Signed/BitIntegerLiteral arms were entered for the
-                  literal at this position; with [Some t] the range test against t
-                  is evaluated there and Lint::IntegerLiteralTruncation (L1142) is
+     litkind   <- which arm of impl Lintable for Expression looks at a literal:
+                  KSigned = the SignedIntegerLiteral arms, KBit = the
+                  BitIntegerLiteral arms, KNegBit = the first arm of the inner match
+                  of the Unary arm (a typed bit literal that is DIRECTLY the operand
+                  of UnaryOp::Negative).
+     lintev    <- EvLiteral: the arm named by the kind was entered for the literal
+                  at this position; with [Some t] the range test of that arm against
+                  t is evaluated there and Lint::IntegerLiteralTruncation (L1142) is
                   pushed iff it fails; with [None] nothing is tested.
                   EvLoopFirst: Lint::LoopAsFirstStatement (L1800) pushed.
 
@@ -51,18 +57,27 @@
      lint_visits, lint_events, lint_checked, lint_positions, visit_positions,
      l1142, l1800
                <- projections of the event list (the executable interface)
+     range_test
+               <- the three range tests of linter.rs (Signed arm, Bit arm, negated
+                  bit literal in the Unary arm) over a table (is_signed(), min_i128(),
+                  Linter::max_u128()) of the opaque type tags: the intended
+                  instance of the parameter [out_of_range] of [l1142]
    Specification (NOT the code): occs_*, literals_of_decl, l1800_spec_*, first_loop.
    Broken variants (NOT the code): walk_*_with, noparen_*, lint_decl_pinned,
-     lint_decl_noparen. *)
+     lint_decl_noparen, oldneg_*, lint_decl_oldneg, plain_kind, range_test_oldneg. *)
 From PV Require Import Base.Common.
 
 Definition tytag := N.
 
 (* ------------------------------------------------------------------ AST *)
 
+Inductive unop :=                                  (* enum UnaryOp *)
+| UNegative                                        (* Negative *)
+| UBitwiseComplement.                              (* BitwiseComplement *)
+
 Inductive expr :=
 | EBinary (left right : expr)                      (* Binary { left, right } *)
-| EUnary (e : expr)                                (* Unary { expression } *)
+| EUnary (op : unop) (e : expr)                    (* Unary { op, expression } *)
 | EBool                                            (* BooleanLiteral *)
 | ESigned (v : Z) (ty : option tytag) (p : N)      (* SignedIntegerLiteral { value, value_type, location } *)
 | EBit (v : Z) (ty : option tytag) (p : N)         (* BitIntegerLiteral { value, value_type, location } *)
@@ -125,8 +140,22 @@ Inductive decl :=
 
 (* ------------------------------------------------------- linter: events *)
 
+(* Which arm looks at a literal, hence which range test it gets (see [range_test]):
+     KSigned  SignedIntegerLiteral arms (linter.rs:321-349)
+     KBit     BitIntegerLiteral arms (350-370)
+     KNegBit  Unary arm, (UnaryOp::Negative, BitIntegerLiteral { value_type:
+              Some(Ok(_)), .. }) (296-314)
+   The guard [if value_type.is_signed()] of that arm is NOT decided here: the types
+   are opaque tags.  A typed bit literal directly under a negation is always
+   KNegBit, and the range test that receives KNegBit (the parameter [out_of_range]
+   of [l1142]) has to make the guard's decision from the tag: signed type => the
+   arm's own test [value > max + 1]; unsigned type => the guard fails, the Rust code
+   falls through to [expression.lint(linter)] and the BitIntegerLiteral arm applies
+   the ordinary test [value > max] at the same location.  [range_test] does so. *)
+Inductive litkind := KSigned | KBit | KNegBit.
+
 Inductive lintev :=
-| EvLiteral (p : N) (signed : bool) (v : Z) (ty : option tytag)
+| EvLiteral (p : N) (k : litkind) (v : Z) (ty : option tytag)
 | EvLoopFirst (loc_loop loc_cond loc_block : N).
 
 Record lstate := MkState {
@@ -138,46 +167,58 @@ Definition st_default : lstate := MkState None None.   (* #[derive(Default)] *)
 
 (* -------------------------------------------------- linter: expressions *)
 
-(* impl Lintable for Expression (linter.rs:250-414), for the loop body of the
-   Structural arm (352) and impl Lintable for ReferenceStep (427-449).  The
-   [for] loops are [flat_map]; expressions neither read nor write the state. *)
+(* impl Lintable for Expression (linter.rs:272-455), for the loop body of the
+   Structural arm and impl Lintable for ReferenceStep.  The [for] loops are
+   [flat_map]; expressions neither read nor write the state.
+   Unary arm: the first arm of [match (op, expression.as_ref())] needs the operator
+   Negative and, as the operand itself (not under parentheses, not under a second
+   operator), a BitIntegerLiteral whose value_type is Some(Ok(_)); then the operand
+   is NOT recursed into, the arm does the range test (kind KNegBit, see [litkind]
+   for the guard).  Everything else - the other operator, another operand, a bit
+   literal whose type is None or Some(Err(_)) - recurses into the operand as before
+   (and the BitIntegerLiteral catch-all arm then looks at the untyped literal
+   without testing it: KBit with [None]). *)
 Fixpoint lint_expr (e : expr) : list lintev :=
   match e with
-  | EBinary l r => lint_expr l ++ lint_expr r                  (* 256-266 *)
-  | EUnary e1 => lint_expr e1                                  (* 267-275 *)
-  | EBool => []                                                (* 276-279 *)
-  | ESigned v ty p => [EvLiteral p true v ty]                  (* 280-308 *)
-  | EBit v ty p => [EvLiteral p false v ty]                    (* 309-329 *)
-  | EArray els => flat_map lint_expr els                       (* 330-339 *)
-  | EString => []                                              (* 340-343 *)
-  | EStructural ms => flat_map lint_member ms                  (* 344-354 *)
-  | EParen e1 => lint_expr e1                                  (* 355-358 *)
-  | EAutocoerce e1 => lint_expr e1                             (* 359-365 *)
-  | EBitCast e1 => lint_expr e1                                (* 366-374 *)
-  | ETypeCast e1 => lint_expr e1                               (* 375-383 *)
-  | EDeref r => flat_map lint_refstep r                        (* 384-390, Reference 416-425 *)
-  | ELengthOfArray r => flat_map lint_refstep r                (* 391-397, Reference 416-425 *)
-  | ESizeOf => []                                              (* 398 *)
-  | ECall args => flat_map lint_expr args                      (* 399-410 *)
-  | EPoison => []                                              (* 411 *)
+  | EBinary l r => lint_expr l ++ lint_expr r                  (* 278-288 *)
+  | EUnary op e1 =>                                            (* 289-316 *)
+      match op, e1 with
+      | UNegative, EBit v (Some t) p => [EvLiteral p KNegBit v (Some t)]   (* 296-314 *)
+      | _, _ => lint_expr e1                                               (* 315 *)
+      end
+  | EBool => []                                                (* 317-320 *)
+  | ESigned v ty p => [EvLiteral p KSigned v ty]               (* 321-349 *)
+  | EBit v ty p => [EvLiteral p KBit v ty]                     (* 350-370 *)
+  | EArray els => flat_map lint_expr els                       (* 371-380 *)
+  | EString => []                                              (* 381-384 *)
+  | EStructural ms => flat_map lint_member ms                  (* 385-395 *)
+  | EParen e1 => lint_expr e1                                  (* 396-399 *)
+  | EAutocoerce e1 => lint_expr e1                             (* 400-406 *)
+  | EBitCast e1 => lint_expr e1                                (* 407-415 *)
+  | ETypeCast e1 => lint_expr e1                               (* 416-424 *)
+  | EDeref r => flat_map lint_refstep r                        (* 425-431, Reference 457-466 *)
+  | ELengthOfArray r => flat_map lint_refstep r                (* 432-438, Reference 457-466 *)
+  | ESizeOf => []                                              (* 439 *)
+  | ECall args => flat_map lint_expr args                      (* 440-451 *)
+  | EPoison => []                                              (* 452 *)
   end
 with lint_member (m : member) : list lintev :=
   match m with
-  | MkMember e => lint_expr e                                  (* 352 *)
+  | MkMember e => lint_expr e                                  (* 393 *)
   end
 with lint_refstep (s : refstep) : list lintev :=
   match s with
-  | RElement a => lint_expr a                                  (* 433-439 *)
-  | RMember => []                                              (* 440-443 *)
-  | RAutodeslice => []                                         (* 444 *)
-  | RAutoderef => []                                           (* 445 *)
-  | RAutoview => []                                            (* 446 *)
+  | RElement a => lint_expr a                                  (* 474-480 *)
+  | RMember => []                                              (* 481-484 *)
+  | RAutodeslice => []                                         (* 485 *)
+  | RAutoderef => []                                           (* 486 *)
+  | RAutoview => []                                            (* 487 *)
   end.
 
-(* impl Lintable for Reference (416-425) *)
+(* impl Lintable for Reference (457-466) *)
 Definition lint_reference (r : reference) : list lintev := flat_map lint_refstep r.
 
-(* impl<T: Lintable> Lintable for Option<T> (58-67), at T = Expression *)
+(* impl<T: Lintable> Lintable for Option<T> (80-89), at T = Expression *)
 Definition lint_option (o : option expr) : list lintev :=
   match o with
   | Some e => lint_expr e
@@ -186,49 +227,49 @@ Definition lint_option (o : option expr) : list lintev :=
 
 (* --------------------------------------------------- linter: statements *)
 
-(* impl Lintable for Statement (166-248) and for Block (139-164).  The inner
+(* impl Lintable for Statement (188-270) and for Block (161-186).  The inner
    [fix] is the loop [for statement in others]. *)
 Fixpoint lint_stmt (s : stmt) (st : lstate) {struct s} : lstate * list lintev :=
   match s with
-  | SDeclaration value => (st, lint_option value)                            (* 172-180 *)
-  | SAssignment r value => (st, lint_reference r ++ lint_expr value)         (* 181-189 *)
-  | SMethodCall args => (st, flat_map lint_expr args)                        (* 190-200 *)
-  | SLoop loc =>                                                             (* 201-212 *)
+  | SDeclaration value => (st, lint_option value)                            (* 194-202 *)
+  | SAssignment r value => (st, lint_reference r ++ lint_expr value)         (* 203-211 *)
+  | SMethodCall args => (st, flat_map lint_expr args)                        (* 212-222 *)
+  | SLoop loc =>                                                             (* 223-234 *)
       match st_first st with                       (* is_first_statement_of_branch.take() *)
       | Some (loc_cond, loc_block) =>
           (MkState (st_naked st) None, [EvLoopFirst loc loc_cond loc_block])
       | None => (st, [])
       end
-  | SGoto => (st, [])                                                        (* 213 *)
-  | SLabel => (st, [])                                                       (* 214 *)
-  | SIf c t e =>                                                             (* 215-243 *)
-      let ev0 := lint_expr (cmp_left c) ++ lint_expr (cmp_right c) in       (* 222-223 *)
-      let st1 := MkState (Some (cmp_loc c)) None in                          (* 225-229 *)
-      let '(st2, ev1) := lint_stmt t st1 in                                  (* 230 *)
+  | SGoto => (st, [])                                                        (* 235 *)
+  | SLabel => (st, [])                                                       (* 236 *)
+  | SIf c t e =>                                                             (* 237-265 *)
+      let ev0 := lint_expr (cmp_left c) ++ lint_expr (cmp_right c) in       (* 244-245 *)
+      let st1 := MkState (Some (cmp_loc c)) None in                          (* 247-251 *)
+      let '(st2, ev1) := lint_stmt t st1 in                                  (* 252 *)
       let '(st3, ev2) :=
-        match e with                                                         (* 232-240 *)
+        match e with                                                         (* 254-262 *)
         | Some (MkElse b loc_else) =>
             lint_stmt b (MkState (Some loc_else) (st_first st2))
         | None => (st2, [])
         end in
-      (MkState None (st_first st3), ev0 ++ ev1 ++ ev2)                       (* 242 *)
-  | SBlock b => lint_block b st                                              (* 244 *)
-  | SPoison => (st, [])                                                      (* 245 *)
+      (MkState None (st_first st3), ev0 ++ ev1 ++ ev2)                       (* 264 *)
+  | SBlock b => lint_block b st                                              (* 266 *)
+  | SPoison => (st, [])                                                      (* 267 *)
   end
 with lint_block (b : block) (st : lstate) {struct b} : lstate * list lintev :=
   match b with
   | MkBlock ss loc =>
-      match ss with                                (* split_first, 143 *)
+      match ss with                                (* split_first, 165 *)
       | [] => (st, [])
       | s1 :: others =>
-          let st1 :=                               (* 145-155: is_naked_branch.take() *)
+          let st1 :=                               (* 167-177: is_naked_branch.take() *)
             MkState None
               (match st_naked st with
                | Some loc_cond => Some (loc_cond, loc)
                | None => None
                end) in
-          let '(st2, ev1) := lint_stmt s1 st1 in                             (* 156 *)
-          let st3 := MkState (st_naked st2) None in                          (* 157 *)
+          let '(st2, ev1) := lint_stmt s1 st1 in                             (* 178 *)
+          let st3 := MkState (st_naked st2) None in                          (* 179 *)
           let '(st4, ev2) :=
             (fix go (l : list stmt) (st : lstate) {struct l} : lstate * list lintev :=
                match l with
@@ -237,12 +278,12 @@ with lint_block (b : block) (st : lstate) {struct b} : lstate * list lintev :=
                    let '(st', ev) := lint_stmt x st in
                    let '(st'', ev') := go xs st' in
                    (st'', ev ++ ev')
-               end) others st3 in                                            (* 158-161 *)
+               end) others st3 in                                            (* 180-183 *)
           (st4, ev1 ++ ev2)
       end
   end.
 
-(* [for statement in ...] over a list of statements (FunctionBody 128-131; the
+(* [for statement in ...] over a list of statements (FunctionBody 150-153; the
    same loop as the local [go] of [lint_block]). *)
 Fixpoint lint_stmts (l : list stmt) (st : lstate) : lstate * list lintev :=
   match l with
@@ -253,21 +294,21 @@ Fixpoint lint_stmts (l : list stmt) (st : lstate) : lstate * list lintev :=
       (st'', ev ++ ev')
   end.
 
-(* impl Lintable for FunctionBody (124-137) *)
+(* impl Lintable for FunctionBody (146-159) *)
 Definition lint_fbody (b : fbody) (st : lstate) : lstate * list lintev :=
-  let '(st1, ev1) := lint_stmts (fb_statements b) st in                      (* 128-131 *)
-  (st1, ev1 ++ lint_option (fb_return_value b)).                             (* 132-135 *)
+  let '(st1, ev1) := lint_stmts (fb_statements b) st in                      (* 150-153 *)
+  (st1, ev1 ++ lint_option (fb_return_value b)).                             (* 154-157 *)
 
-(* impl Lintable for Declaration (69-122), run in state [st] *)
+(* impl Lintable for Declaration (91-144), run in state [st] *)
 Definition lint_decl_in (d : decl) (st : lstate) : lstate * list lintev :=
   match d with
-  | DConstant value => (st, lint_expr value)                                 (* 75-83 *)
-  | DFunction (Some body) => lint_fbody body st                              (* 84-92 *)
-  | DFunction None => (st, [])                                               (* 93-101 *)
-  | DFunctionHead => (st, [])                                                (* 102-109 *)
-  | DStructure => (st, [])                                                   (* 110-117 *)
-  | DImport => (st, [])                                                      (* 118 *)
-  | DPoison => (st, [])                                                      (* 119 *)
+  | DConstant value => (st, lint_expr value)                                 (* 97-105 *)
+  | DFunction (Some body) => lint_fbody body st                              (* 106-114 *)
+  | DFunction None => (st, [])                                               (* 115-123 *)
+  | DFunctionHead => (st, [])                                                (* 124-131 *)
+  | DStructure => (st, [])                                                   (* 132-139 *)
+  | DImport => (st, [])                                                      (* 140 *)
+  | DPoison => (st, [])                                                      (* 141 *)
   end.
 
 (* Linter::lint on a fresh Linter: the lints/visits of one declaration *)
@@ -278,7 +319,8 @@ Definition lint_decl (d : decl) : list lintev := snd (lint_decl_in d st_default)
 (* one visit of / one occurrence of an integer literal *)
 Record litocc := MkOcc {
   oc_pos : N;                    (* location *)
-  oc_signed : bool;              (* true: SignedIntegerLiteral, false: BitIntegerLiteral *)
+  oc_kind : litkind;             (* KSigned: SignedIntegerLiteral; KBit: BitIntegerLiteral; KNegBit: typed
+                                    BitIntegerLiteral that is directly the operand of a negation *)
   oc_val : Z;                    (* value *)
   oc_ty : option tytag           (* value_type *)
 }.
@@ -287,7 +329,7 @@ Definition occ_key (o : litocc) : N * option tytag := (oc_pos o, oc_ty o).
 
 Definition ev_occ (ev : lintev) : list litocc :=
   match ev with
-  | EvLiteral p sg v ty => [MkOcc p sg v ty]
+  | EvLiteral p k v ty => [MkOcc p k v ty]
   | EvLoopFirst _ _ _ => []
   end.
 
@@ -312,15 +354,36 @@ Definition visit_positions (d : decl) : list N := map fst (lint_events d).
    (= [visit_positions] when every literal carries a type) *)
 Definition lint_positions (d : decl) : list N := map fst (lint_checked d).
 
-(* L1142 with the range test as a parameter: [out_of_range signed value type] *)
-Definition occ_l1142 (out_of_range : bool -> Z -> tytag -> bool) (o : litocc) : list N :=
+(* L1142 with the range test as a parameter: [out_of_range kind value type];
+   for KNegBit the value is the literal's magnitude (the operand of the negation) *)
+Definition occ_l1142 (out_of_range : litkind -> Z -> tytag -> bool) (o : litocc) : list N :=
   match oc_ty o with
-  | Some t => if out_of_range (oc_signed o) (oc_val o) t then [oc_pos o] else []
+  | Some t => if out_of_range (oc_kind o) (oc_val o) t then [oc_pos o] else []
   | None => []
   end.
 
-Definition l1142 (out_of_range : bool -> Z -> tytag -> bool) (d : decl) : list N :=
+Definition l1142 (out_of_range : litkind -> Z -> tytag -> bool) (d : decl) : list N :=
   flat_map (occ_l1142 out_of_range) (lint_visits d).
+
+(* The range tests linter.rs applies, over a table of the opaque tags:
+   [tbl t = Some (value_type.is_signed(), value_type.min_i128(),
+   linter.max_u128(value_type))]; a tag without an entry is never flagged.
+     KSigned (321-344): value < min when value < 0, value > max otherwise
+     KBit    (350-365): value > max
+     KNegBit (296-314): signed type: value > max + 1 ("the negation of a literal can
+             be the minimum value"); unsigned type: the guard of the arm fails and the
+             BitIntegerLiteral arm tests value > max. *)
+Definition range_test (tbl : tytag -> option (bool * Z * Z))
+    (k : litkind) (v : Z) (t : tytag) : bool :=
+  match tbl t with
+  | Some (sg, mn, mx) =>
+      match k with
+      | KSigned => if (v <? 0)%Z then (v <? mn)%Z else (mx <? v)%Z
+      | KBit => (mx <? v)%Z
+      | KNegBit => if sg then (mx + 1 <? v)%Z else (mx <? v)%Z
+      end
+  | None => false
+  end.
 
 (* L1800: (location_of_loop, location_of_condition, location_of_block) *)
 Definition ev_l1800 (ev : lintev) : list (N * N * N) :=
@@ -346,13 +409,17 @@ Definition lint_module (ds : list decl) : list lintev := snd (lint_decls_in ds s
 
 (* -------------------------------- SPECIFICATION (not the code): literals *)
 
-(* Every integer literal in expression position, in source order. *)
+(* Every integer literal in expression position, in source order.  The kind of an
+   occurrence says which literal it is and where it stands: a bit literal with a
+   type that is directly the operand of a negation is KNegBit (the only place where
+   the kind depends on the context), every other bit literal is KBit. *)
 Fixpoint occs_expr (e : expr) : list litocc :=
   match e with
-  | ESigned v ty p => [MkOcc p true v ty]
-  | EBit v ty p => [MkOcc p false v ty]
+  | ESigned v ty p => [MkOcc p KSigned v ty]
+  | EBit v ty p => [MkOcc p KBit v ty]
   | EBinary l r => occs_expr l ++ occs_expr r
-  | EUnary e1 | EParen e1 | EAutocoerce e1 | EBitCast e1 | ETypeCast e1 => occs_expr e1
+  | EUnary UNegative (EBit v (Some t) p) => [MkOcc p KNegBit v (Some t)]
+  | EUnary _ e1 | EParen e1 | EAutocoerce e1 | EBitCast e1 | ETypeCast e1 => occs_expr e1
   | EArray l | ECall l => flat_map occs_expr l
   | EStructural ms => flat_map occs_member ms
   | EDeref r | ELengthOfArray r => flat_map occs_refstep r
@@ -467,10 +534,14 @@ Definition lint_decl_pinned (d : decl) : list lintev :=
 Fixpoint noparen_expr (e : expr) : list lintev :=
   match e with
   | EBinary l r => noparen_expr l ++ noparen_expr r
-  | EUnary e1 => noparen_expr e1
+  | EUnary op e1 =>
+      match op, e1 with
+      | UNegative, EBit v (Some t) p => [EvLiteral p KNegBit v (Some t)]
+      | _, _ => noparen_expr e1
+      end
   | EBool => []
-  | ESigned v ty p => [EvLiteral p true v ty]
-  | EBit v ty p => [EvLiteral p false v ty]
+  | ESigned v ty p => [EvLiteral p KSigned v ty]
+  | EBit v ty p => [EvLiteral p KBit v ty]
   | EArray els => flat_map noparen_expr els
   | EString => []
   | EStructural ms => flat_map noparen_member ms
@@ -496,3 +567,52 @@ Definition lint_decl_noparen (d : decl) : list lintev :=
   walk_decl_with noparen_expr noparen_refstep true true d.
 
 Definition events_of (l : list lintev) : list (N * option tytag) := map occ_key (visits_of l).
+
+(* (c) NOT the code: the expression walk before the repair of the Unary arm, which
+   only recursed into the operand whatever the operator, so that a negated bit
+   literal was looked at by the BitIntegerLiteral arm (kind KBit, ordinary test).
+   It visits the same literals in the same order; only the kind differs
+   ([oldneg_expr_is_plain] in the proofs). *)
+Fixpoint oldneg_expr (e : expr) : list lintev :=
+  match e with
+  | EBinary l r => oldneg_expr l ++ oldneg_expr r
+  | EUnary _ e1 => oldneg_expr e1                      (* the old arm *)
+  | EBool => []
+  | ESigned v ty p => [EvLiteral p KSigned v ty]
+  | EBit v ty p => [EvLiteral p KBit v ty]
+  | EArray els => flat_map oldneg_expr els
+  | EString => []
+  | EStructural ms => flat_map oldneg_member ms
+  | EParen e1 => oldneg_expr e1
+  | EAutocoerce e1 => oldneg_expr e1
+  | EBitCast e1 => oldneg_expr e1
+  | ETypeCast e1 => oldneg_expr e1
+  | EDeref r => flat_map oldneg_refstep r
+  | ELengthOfArray r => flat_map oldneg_refstep r
+  | ESizeOf => []
+  | ECall args => flat_map oldneg_expr args
+  | EPoison => []
+  end
+with oldneg_member (m : member) : list lintev :=
+  match m with MkMember e => oldneg_expr e end
+with oldneg_refstep (s : refstep) : list lintev :=
+  match s with
+  | RElement a => oldneg_expr a
+  | _ => []
+  end.
+
+Definition lint_decl_oldneg (d : decl) : list lintev :=
+  walk_decl_with oldneg_expr oldneg_refstep true true d.
+
+(* ... and its range test: a negated bit literal got the test of the
+   BitIntegerLiteral arm. *)
+Definition plain_kind (k : litkind) : litkind :=
+  match k with KNegBit => KBit | _ => k end.
+
+Definition range_test_oldneg (tbl : tytag -> option (bool * Z * Z))
+    (k : litkind) (v : Z) (t : tytag) : bool :=
+  range_test tbl (plain_kind k) v t.
+
+(* L1142 of a list of events under the range test [out_of_range] *)
+Definition l1142_of (out_of_range : litkind -> Z -> tytag -> bool) (l : list lintev) : list N :=
+  flat_map (occ_l1142 out_of_range) (visits_of l).
